@@ -494,6 +494,9 @@ def run(chk, P):
     chk.rule('R08.4', 'target conversion is link-consistent: per-link tables are subscripted by one link variable with the '
              'table\'s own slot roles, and link 0\'s set-up (vf->vi) is never used by shortcut when a link was selected '
              '(time -> sample conversion uses vi[link].rate of the selected link)')
+    from rules import c07
+    c07.r07_13(Proxy(chk, 'R08.13'), P, rule='R08.13')
+    chk.floor('R08.13', 3)
     c09.r09_1(Proxy(chk, 'R08.4'), P)
     c09.r09_4(Proxy(chk, 'R08.4'), P)
     chk.floor('R08.4', 40)
